@@ -16,11 +16,13 @@ sec = f"""
 
 {n} seeded changes are kept under `/verif/seeded/<id>/` (`patch.diff`, the
 demonstration test as `*_test.go.txt`, the agent's own `agent_README.md`, and
-`meta.json`). They were produced in three rounds of twenty by fresh sub-agents
+`meta.json`). They were produced by fresh sub-agents in three rounds of twenty
 that saw only the text of one property and their own scratch worktree of `/repo`
 (rounds 2 and 3 additionally got one-line descriptions of the earlier changes
-for that property, to force a different mechanism and clause; nothing from
-`/verif` was ever shown). Each was **confirmed independently** before being kept
+for that property, to force a different mechanism and clause), and a fourth
+round of twelve (`A01-r4` … `A12-r4`) in which each agent got the texts of all
+twenty properties and one *area of the source tree* to change. Nothing from
+`/verif` was ever shown. Each was **confirmed independently** before being kept
 (`tools/confirm_mutant.sh`): the patch applies to the clean tree, the library
 builds with and without the `verif` tag, the demonstration passes without the
 change and fails with it, and the pinned suite (the 244 `stable_pass` tests,
@@ -36,11 +38,10 @@ truncation in the report builder twice), which says something about where the
 suite is thin.
 
 Outcome: **every one of the {n} changes is reported as a VIOLATION by the quick
-tier of the check of the property it was written against** (seed 1). Twenty-one
-of them were *missed* by the version of the monitor that existed when they
-arrived (round 1: 3, round 2: 8, round 3: 7, plus 3 found while adding kinds)
-and led to the strengthenings listed below the table; none led to loosening a
-check.
+tier of the check of the property it was written against** (seed 1). About a
+quarter of them were *missed* by the version of the monitor that existed when
+they arrived (round 1: 3, round 2: 8, round 3: 7, round 4: 2) and led to the
+strengthenings listed below the table; none led to loosening a check.
 
 | seeded | property | change | needs, in order to manifest | caught by (signatures) |
 |---|---|---|---|---|
@@ -62,10 +63,13 @@ of the API.
   and with the visible cause (`C07-r2`); the `newfew` kind, `Newf("… %v … %w",
   hidden, cause)`: the `%w` operand is not the first error argument (`C07-r3`).
 * **C08** — fresh "twin" objects equivalent to the sentinels in the reference
-  pool, and `Mark(e, r)` with a reference that `e` already matches (`C08-r3`).
+  pool, and `Mark(e, r)` with a reference that `e` already matches (`C08-r3`);
+  `IsAny` is called with a spread slice that has a nil in the middle, the slice is
+  compared before / after and used again (`A07-r4`).
 * **C09** — issue links with a detail but no URL, and a URL but no detail
   (`C09-r2`).
-* **C10** — the nil sweep also runs 23 "rich argument" paths (tagged context,
+* **C10** — format-only kinds: `Newf` / `Wrapf` / `WithMessagef` with an escaped
+  `%` and no argument (`A12-r4`); the nil sweep also runs 23 "rich argument" paths (tagged context,
   error-typed format arguments, non-empty link, package domain, `codes.OK` /
   `Unknown`, empty message) (`C10-r3`).
 * **C11** — the `tagsafe` kind: `Safe()`, nil and int tag values (`C11`); the
